@@ -21,7 +21,7 @@ func (tdRaceStream) Name() string               { return "tdrace" }
 func (tdRaceStream) CaseTimeout() time.Duration { return 120 * time.Second }
 func (tdRaceStream) NoModel() bool              { return true }
 func (tdRaceStream) Rule() string {
-	return "a live test directory (plain listener) serving C concurrent clients (2..6) that issue binds (also with an empty password), user / group / generic searches, adds, modifies and deletes, while application goroutines call SetUsers, SetGroups, SetControls, SetTokenGroups, SetAllowAnonymousBind and the getters in a loop; run under the race detector; oracle: no race report with a frame in github.com/jimlambrt/gldap, no panic, every request answered; non-trivial = every scenario, distinct by seed"
+	return "a live test directory (plain listener) serving C concurrent clients (2..6) that issue binds (also with an empty password), user / group / generic searches, adds, modifies and deletes - on entries of their own and on entries all of them share (one client searches an entry while another modifies it) -, while application goroutines call SetUsers, SetGroups, SetControls, SetTokenGroups, SetAllowAnonymousBind and the getters in a loop; run under the race detector; oracle: no race report with a frame in github.com/jimlambrt/gldap, no panic, every request answered; non-trivial = every scenario, distinct by seed"
 }
 
 func (tdRaceStream) Generate(rng *rand.Rand, n int, thorough bool) []Case {
@@ -109,7 +109,19 @@ func (tdRaceStream) Impl(c Case) string {
 				id := int64(i + 1)
 				var r Req
 				dn := fmt.Sprintf("cn=u%d-%d,%s", ci, rng.Intn(4), testdirectory.DefaultUserDN)
-				switch rng.Intn(9) {
+				shared := fmt.Sprintf("cn=shared%d,%s", rng.Intn(2), testdirectory.DefaultUserDN)
+				switch rng.Intn(14) {
+				case 9:
+					// entries every client works on: one searches an entry while another modifies it
+					r = Req{Kind: "modify", ID: id, DN: "cn=alice," + testdirectory.DefaultUserDN, Changes: []Chg{{Op: []int64{0, 2, 1}[rng.Intn(3)], Type: "description", Vals: []string{"d"}}}}
+				case 10:
+					r = Req{Kind: "add", ID: id, DN: shared, AddAttrs: []Att{{Type: "mail", Vals: []string{"a@b"}}}}
+				case 11:
+					r = Req{Kind: "modify", ID: id, DN: shared, Changes: []Chg{{Op: []int64{0, 2}[rng.Intn(2)], Type: "mail", Vals: []string{"c@d", "e@f"}}}}
+				case 12:
+					r = Req{Kind: "search", ID: id, DN: testdirectory.DefaultUserDN, Scope: 2, Filter: fmt.Sprintf("(cn=shared%d)", rng.Intn(2))}
+				case 13:
+					r = Req{Kind: "search", ID: id, DN: testdirectory.DefaultUserDN, Scope: 2, Filter: "(cn=alice)"}
 				case 8:
 					r = Req{Kind: "bind", ID: id, DN: "cn=alice," + testdirectory.DefaultUserDN, Pass: ""} // anonymous
 				case 0:
